@@ -162,7 +162,14 @@ def url_case(res, W, url, full):
         if net_.resolver_calls or net_.sockets:
             res.violation("network-activity-for-refused-url", f"connect({url}): resolver calls {net_.resolver_calls}, sockets {len(net_.sockets)}", case)
     elif verdict == "valid":
-        if ckind != "ret":
+        if ckind == "other:WebSocketAddressException" and not _resolvable(exp[0]):
+            # a well-formed URL whose host no resolver can look up (an empty or over-long label): the URL is accepted, the name and
+            # port reach the resolver, the resolver's failure is the library's documented address error and nothing is connected
+            res.count("urls_unresolvable_host")
+            rc = net_.resolver_calls
+            if len(rc) != 1 or (rc[0][0] or "").lower() != exp[0] or int(rc[0][1]) != exp[1] or net_.sockets:
+                res.violation("resolver-target", f"{url}: resolver asked for {rc!r} (sockets {len(net_.sockets)}), reference {exp[:2]!r}", case)
+        elif ckind != "ret":
             res.violation("valid-url-refused", f"connect({url}): {ckind}", case, url_class="valid", via="connect")
         else:
             rc = net_.resolver_calls
@@ -181,6 +188,14 @@ def url_case(res, W, url, full):
     if w is not None:
         w.shutdown()
     res.sample(case, cap=3)
+
+
+def _resolvable(host):
+    try:
+        host.encode("idna")
+        return True
+    except UnicodeError:
+        return False
 
 
 def proxy_addr_case(res, W, rng, lst, timeout, ptimeout):
